@@ -154,6 +154,119 @@ def ob_power(K, n):
     return verify(body, check_side=False, timeout_ms=60000)
 
 
+@obligation("power/normalized_waterfilling_budget", params=[{"K": 2, "n": 1}, {"K": 3, "n": 1}, {"K": 2, "n": 2}], timeout=300,
+            desc="_perform_normalized_waterfilling_power_scaling / block_diagonalize on an object whose public iPu and noise_var were "
+                 "CHANGED after construction; callees under contract: doWF (property C12: P >= 0, sum P == total power) and the Frobenius "
+                 "norm (r >= 0, r^2 == sum |x|^2).  doWF is asked for the squared singular values, total power K*iPu and the noise "
+                 "variance of the object's CURRENT attributes; every transmitter's block has power <= iPu and the strongest exactly iPu; "
+                 "newH == H Ms")
+def ob_wf_budget(K, n):
+    def body(c, it):
+        from pyphysim.comm import blockdiagonalization as bd
+        from pyphysim.comm import waterfilling
+        N = K * n
+        mk = _cmat if n == 1 else _rmat
+        H = mk(c, "H", N, N)
+        Msb = mk(c, "M", N, N)
+        Sig = np.empty(N, dtype=object)
+        for i in range(N):
+            Sig[i] = c.var("s%d" % i, "real")
+            c.assume(Sig[i] > 0)
+        iPu0, iPu, nv0, nv = c.var("iPu_at_construction", "real"), c.var("iPu", "real"), c.var("nv_at_construction", "real"), c.var("nv", "real")
+        c.assume((iPu0 > 0) & (iPu > 0) & (nv0 > 0) & (nv > 0))
+        c.inputs.update(iPu_at_construction=iPu0, iPu=iPu, noise_var=nv)
+        asked, norms = [], []
+
+        def dowf(interp, gains, Pt, noise, Es=1.0):
+            asked.append((gains, Pt, noise, Es))
+            P = np.empty(N, dtype=object)
+            tot = 0
+            for i in range(N):
+                P[i] = c.var("p%d" % i, "real")
+                c.assume(P[i] >= 0)
+                tot = tot + P[i]
+            c.assume(tot == lift(Pt))
+            return P, c.var("mu", "real")
+
+        def fro(interp, A, ord=None, axis=None, **k):
+            # contract of the Frobenius norm: r >= 0 and r^2 == sum |a_ij|^2 (ghost: the radicand is recorded)
+            A = np.asarray(A, dtype=object)
+            E = 0
+            for v in A.flat:
+                v = sym.to_complex(v)
+                E = E + v.re * v.re + v.im * v.im
+            r = c.var("norm%d" % len(norms), "real")
+            c.assume(r >= 0)
+            norms.append((r, lift(E)))
+            return r
+        it.if_conversion = False        # the max-search forks one path per strongest transmitter
+        it.models[waterfilling.doWF] = dowf
+        it.models[np.linalg.norm] = fro
+        it.models["pyphysim.comm.blockdiagonalization:BlockDiagonalizer._calc_BD_matrix_no_power_scaling"] = \
+            lambda interp, self, ch: (Msb, Sig)
+        o = it.call(bd.BlockDiagonalizer, [K, iPu0, nv0])
+        it.setattr(o, "iPu", iPu)
+        it.setattr(o, "noise_var", nv)
+        newH, Ms = it.call(it.getattr(o, "block_diagonalize"), [H])
+        goals = [Goal("doWF called once, one norm per transmitter", len(asked) == 1 and len(norms) == K)]
+        if not goals[0].cond:
+            return goals
+        g, Pt, noise, Es = asked[0]
+        goals.append(Goal("doWF gains == Sigma^2", _meq(np.asarray(g, dtype=object), Sig * Sig)))
+        goals.append(Goal("doWF total power == K * iPu (current)", lift(Pt) == K * iPu))
+        goals.append(Goal("doWF noise == noise_var (current)", lift(noise) == nv))
+        goals.append(Goal("doWF Es == 1", lift(Es) == 1))
+        goals.append(Goal("shapes", np.shape(Ms) == (N, N) and np.shape(newH) == (N, N)))
+        if not goals[-1].cond:
+            return goals
+        goals.append(Goal("newH == H Ms", _meq(newH, np.dot(H, Ms))))
+        # the strongest transmitter on this path: r_m >= r_u for all u is entailed by the path condition (linear)
+        rs = [r for r, _ in norms]
+        strongest = [m for m in range(K)
+                     if all(c.prove(rs[m] >= rs[u], timeout_ms=5000)[0] == "proved" for u in range(K))
+                     and c.prove(rs[m] > 0, timeout_ms=5000)[0] == "proved"]
+        if not strongest:
+            if c.check_sat([z3.Or([(r > 0).t for r in rs])], 5000)[0] == z3.unsat:
+                return goals          # nothing is transmitted at all: excluded (sum P = K iPu > 0 on unit-norm precoder columns)
+            return goals + [Goal("a strongest transmitter is determined on this path", False)]
+        m = strongest[0]
+        for u in range(K):
+            e = 0
+            for v in Ms[:, u * n:(u + 1) * n].flat:
+                v = sym.to_complex(v)
+                e = e + v.re * v.re + v.im * v.im
+            # (1) ring identity: power_u * r_m^2 == E_u * iPu, E_u the radicand handed to the norm for transmitter u
+            goals.append(Goal("transmitter %d: power * r_max^2 == ||water-filled block||^2 * iPu" % u,
+                              frac_eq(lift(e) * rs[m] * rs[m], norms[u][1] * iPu)))
+            # (2) with E_u == r_u^2 (norm contract) and r_u <= r_m (path condition): power_u <= iPu, == iPu for the strongest
+            a = c.fresh_var("power%d" % u, "real")
+            hyp = (a * rs[m] * rs[m] == rs[u] * rs[u] * iPu)
+            goals.append(Goal("transmitter %d: power <= iPu" % u, sym.SBool(z3.Implies(hyp.t, (a <= iPu).t))))
+            if u == m:
+                goals.append(Goal("strongest transmitter %d: power == iPu" % u, sym.SBool(z3.Implies(hyp.t, (a == iPu).t))))
+        return goals
+
+    def replay(mv):
+        # the counter-model fixes the attribute history (iPu at construction / now, noise); the channel is a generic one
+        from pyphysim.comm import blockdiagonalization as bd
+        try:
+            r = stable_rng("C09replay")
+            N = K * n
+            H = r.standard_normal((N, N)) + 1j * r.standard_normal((N, N))
+            iPu0, iPu, nv = float(mv["iPu_at_construction"]), float(mv["iPu"]), float(mv["noise_var"])
+            o = bd.BlockDiagonalizer(K, iPu0, nv)
+            o.iPu = iPu
+            o.noise_var = nv
+            newH, Ms = o.block_diagonalize(H)
+            pw = [float(np.linalg.norm(Ms[:, u * n:(u + 1) * n], 'fro') ** 2) for u in range(K)]
+            bad = max(pw) > iPu * (1 + 1e-9) or abs(max(pw) - iPu) > 1e-9 * iPu or not np.allclose(newH, H @ Ms)
+            return {"confirmed": bool(bad), "iPu_at_construction": iPu0, "iPu_now": iPu, "noise_var": nv,
+                    "transmitter_powers": pw, "expected_max": iPu}
+        except Exception as e:
+            return {"confirmed": False, "error": repr(e)}
+    return verify(body, check_side=False, timeout_ms=20000, replay=replay)
+
+
 @obligation("filter/projection_based_receive_filter", timeout=120,
             desc="EnhancedBD.calc_receive_filter_user_k(Heq, P): W == pinv(Pbar Heq) Pbar with Pbar the projector onto span(P), and W Heq == I "
                  "(2x1 symbolic, P a symbolic direction); without P it is pinv(Heq)")
@@ -197,33 +310,33 @@ def ob_native_bd():
         K, n, sc = case["K"], case["n"], case["scale"]
         N = K * n
         H = _cm(rr, N, N) * sc
-        if np.linalg.cond(H) > 1e4:
+        if (not (np.linalg.cond(H) <= 1e4)):
             return None
         iPu = float(10 ** rr.uniform(-2, 1))
         o = bd.BlockDiagonalizer(K, iPu, float(10 ** rr.uniform(-3, 0)) * sc * sc)
         for wf in (False, True):
             newH, Ms = o.block_diagonalize(H) if wf else o.block_diagonalize_no_waterfilling(H)
-            if np.abs(newH - H @ Ms).max() > 1e-9 * np.abs(newH).max():
+            if (not (np.abs(newH - H @ Ms).max() <= 1e-9 * np.abs(newH).max())):
                 return {"newH != H Ms": wf}
             ref = np.abs(newH).max()
             pw = []
             for k in range(K):
                 for j in range(K):
-                    if j != k and np.abs(newH[j * n:(j + 1) * n, k * n:(k + 1) * n]).max() > 1e-9 * ref:
+                    if j != k and (not (np.abs(newH[j * n:(j + 1) * n, k * n:(k + 1) * n]).max() <= 1e-9 * ref)):
                         return {"not block diagonal": [j, k, float(np.abs(newH[j * n:(j + 1) * n, k * n:(k + 1) * n]).max() / ref)], "wf": wf}
                 pw.append(np.linalg.norm(Ms[:, k * n:(k + 1) * n], 'fro') ** 2)
             pw = np.array(pw)
             if wf:
-                if pw.max() > iPu * (1 + 1e-9) or abs(pw.max() - iPu) > 1e-9 * iPu:
+                if (not (pw.max() <= iPu * (1 + 1e-9))) or (not (abs(pw.max() - iPu) <= 1e-9 * iPu)):
                     return {"normalised water-filling powers": pw.tolist(), "iPu": iPu}
-            elif np.abs(pw - iPu).max() > 1e-9 * iPu:
+            elif (not (np.abs(pw - iPu).max() <= 1e-9 * iPu)):
                 return {"per-user power": pw.tolist(), "iPu": iPu}
             W = o.calc_receive_filter(newH)
             E = W @ newH
             col_pow = np.linalg.norm(Ms, axis=0) ** 2
             live = col_pow > 1e-12 * iPu
             I = np.eye(N)
-            if np.abs((E - I)[np.ix_(live, live)]).max() > 1e-6:
+            if (not (np.abs((E - I)[np.ix_(live, live)]).max() <= 1e-6)):
                 return {"receive filter does not invert the effective channel": float(np.abs((E - I)[np.ix_(live, live)]).max()),
                         "scale": sc, "wf": wf}
         return None
@@ -278,19 +391,19 @@ def ob_native_ext():
             if metric in ("naive", "fixed") and Ns[k] != ns_req:
                 return {"requested streams": ns_req, "reported": int(Ns[k])}
             pw = np.linalg.norm(Ms[k], 'fro') ** 2
-            if abs(pw - iPu) > 1e-8 * iPu:
+            if (not (abs(pw - iPu) <= 1e-8 * iPu)):
                 return {"user power": float(pw), "iPu": iPu, "metric": metric, "user": k}
             for j in range(K):
                 Hj = Hbig[j * n:(j + 1) * n, :]
-                if j != k and np.abs(Hj @ Ms[k]).max() > 1e-8 * ref * math.sqrt(iPu):
+                if j != k and (not (np.abs(Hj @ Ms[k]).max() <= 1e-8 * ref * math.sqrt(iPu))):
                     return {"inter-user interference": [j, k, float(np.abs(Hj @ Ms[k]).max())], "metric": metric}
             Hk = Hbig[k * n:(k + 1) * n, :]
             E = Wk[k] @ Hk @ Ms[k]
-            if np.abs(E - np.eye(Ns[k])).max() > 1e-6:
+            if (not (np.abs(E - np.eye(Ns[k])).max() <= 1e-6)):
                 return {"W_k H_kk Ms_k != I": float(np.abs(E - np.eye(Ns[k])).max()), "metric": metric, "Ns": int(Ns[k])}
-            if metric == "fixed" and n - ns_req >= rankE:
+            if metric == "fixed" and (not (n - ns_req < rankE)):
                 leak = np.abs(Wk[k] @ ext[k * n:(k + 1) * n, :]).max() / max(np.abs(Wk[k]).max() * np.abs(ext).max(), 1e-300)
-                if leak > 1e-6:
+                if (not (leak <= 1e-6)):
                     return {"external interference not removed": float(leak), "n": n, "kept streams": ns_req, "interference rank": rankE}
         return None
     return bounded(gen(), check)
